@@ -470,6 +470,7 @@ Inductive cstmt :=
 | SFor (x : bstr) (e : cexpr) (body : cblk) (hasie : bool) (ie : cblk)   (* {foreach $x in e}body[{ifempty}ie]{/foreach}; ie is BNil without {ifempty} *)
 | SForRange (x : bstr) (a1 : cexpr) (rest : list cexpr) (body : cblk) (hasie : bool) (ie : cblk)
     (* {for $x in range(a1, rest..)}body[{ifempty}ie]{/for}: one to three arguments *)
+| SCss (e : option cexpr) (sfx : bstr)                   (* {css sfx} / {css e, sfx} *)
 with cblk := BNil | BCons (s : cstmt) (r : cblk)
 with celse := ENone | EElse (b : cblk) | EElif (c : cexpr) (th : cblk) (rest : celse)
 with ccases := KNone | KDefault (b : cblk) | KCase (v : cexpr) (vs : list cexpr) (b : cblk) (rest : ccases).
@@ -486,6 +487,7 @@ Fixpoint snode (s : cstmt) : node :=
       NFor 0 x (cnode e) (NList 0 (bnodes body)) (if hasie then Some (NList 0 (bnodes ie)) else None)
   | SForRange x a1 rest body hasie ie =>
       NFor 0 x (NFunc 0 jn_range (cnode a1 :: map cnode rest)) (NList 0 (bnodes body)) (if hasie then Some (NList 0 (bnodes ie)) else None)
+  | SCss e sfx => NCss 0 (match e with Some x => Some (cnode x) | None => None end) sfx
   end
 with bnodes (b : cblk) : list node :=
   match b with BNil => [] | BCons s r => snode s :: bnodes r end
@@ -514,6 +516,7 @@ Fixpoint sdepth (s : cstmt) : nat :=
   | SSwitch v cs => S (S (Nat.max (cdepth v) (kdepth cs)))
   | SFor _ e body _ ie => S (S (Nat.max (cdepth e) (Nat.max (bdepth body) (bdepth ie))))
   | SForRange _ a1 rest body _ ie => S (S (S (Nat.max (Nat.max (cdepth a1) (cdepths rest)) (Nat.max (bdepth body) (bdepth ie)))))
+  | SCss e _ => S (S (match e with Some x => cdepth x | None => 0%nat end))
   end
 with bdepth (b : cblk) : nat :=
   match b with BNil => 0%nat | BCons s r => Nat.max (S (sdepth s)) (bdepth r) end
@@ -542,6 +545,7 @@ Inductive jstmt :=
 | JSForRange (vd vinit vstep vlen vidx : bstr) (ei es el : jexpr) (body : jblk) (hasie : bool) (ie : jblk)
     (* var vinit = ei; var vstep = es; var vlen = Math.max(0, Math.ceil((el - vinit) / vstep));
        [if (vlen > 0) {] for (var vidx = 0; vidx < vlen; vidx++) { var vd = vinit + vidx * vstep; body } [} else { ie }] *)
+| JSCss (buf : bstr) (e : option jexpr) (sfx : bstr)            (* [buf += e + '-';] buf += 'sfx'; *)
 with jblk := JBNil | JBCons (s : jstmt) (r : jblk)
 with jelse := JLNone | JLElse (b : jblk) | JLElif (c : jexpr) (th : jblk) (rest : jelse)
 with jcases := JKNone | JKDefault (b : jblk) | JKCase (v : jexpr) (vs : list jexpr) (b : jblk) (rest : jcases).
@@ -599,6 +603,7 @@ Fixpoint sgen (mode : N) (buf : bstr) (sc : list (list (bstr * bstr))) (n : N) (
                            end in
       (JSForRange (jsc_name x (n + 1)) (jsc_name (x ++ t_init) (n + 1)) (jsc_name (x ++ t_step) (n + 1)) (jsc_name (x ++ t_limit) (n + 1))
                   (jsc_name (x ++ t_index) (n + 1)) ei es el jb hasie ji, (sc, n2))
+  | SCss e sfx => (JSCss buf (match e with Some x => Some (cgen sc x) | None => None end) sfx, (sc, n))
   end
 with bgen (mode : N) (buf : bstr) (sc : list (list (bstr * bstr))) (n : N) (b : cblk) : jblk * N :=
   match b with
@@ -735,6 +740,13 @@ Fixpoint js_exec (env : jenv) (s : jstmt) : outcome jenv :=
           end
       | _, _, _ => OutOfModel
       end
+  | JSCss buf e sfx =>
+      env1 <- match e with
+              | Some x => v <- js_eval env x ;;
+                          match js_tostring v with Some s => js_append_text env buf (s ++ [45]) | None => OutOfModel end
+              | None => Ok env
+              end ;;
+      js_append_text env1 buf sfx
   end
 with jb_exec (env : jenv) (b : jblk) : outcome jenv :=
   match b with JBNil => Ok env | JBCons s r => env' <- js_exec env s ;; jb_exec env' r end
@@ -880,6 +892,15 @@ Section Sout.
           | None => None
           end
         else None
+    | SCss e sfx =>
+        match e with
+        | None => Some (sfx, env)
+        | Some x =>
+            match ceval ij env x with
+            | Some v => match scalar_string v with Some str => Some ((str ++ [45]) ++ sfx, env) | None => None end
+            | None => None
+            end
+        end
     end
   with bout (env : bstr -> option value) (b : cblk) : option bstr :=
     match b with
@@ -952,6 +973,12 @@ Fixpoint sprint (ind : nat) (s : jstmt) : list chunk :=
       ++ bprint (S ind1) body
       ++ (sp_ind ind1 ++ [CText t_rbrace] ++ [CText t_nl])
       ++ (if hasie then (sp_ind ind ++ [CText t_else_block] ++ [CText t_nl]) ++ bprint (S ind) ie ++ (sp_ind ind ++ [CText t_rbrace] ++ [CText t_nl]) else [])
+  | JSCss buf e sfx =>
+      (match e with
+       | Some x => [CText (indent_text ind); CName buf; CText t_pluseq] ++ jprint x ++ [CText t_css_tail; CText t_nl]
+       | None => []
+       end)
+      ++ [CText (indent_text ind); CName buf; CText t_pluseq; CStrLit 39 sfx; CText t_semi_nl]
   end
 with bprint (ind : nat) (b : jblk) : list chunk :=
   match b with JBNil => [] | JBCons s r => sprint ind s ++ bprint ind r end
@@ -984,6 +1011,7 @@ Fixpoint swf (lv : list bstr) (s : cstmt) : bool :=
   | SFor x e body _ ie => is_ident x && cwf lv e && bwf (x :: lv) body && bwf lv ie
   | SForRange x a1 rest body _ ie =>
       is_ident x && (Nat.leb (length rest) 2) && cwf lv a1 && forallb (cwf lv) rest && bwf (x :: lv) body && bwf lv ie
+  | SCss e _ => match e with Some x => cwf lv x | None => true end
   end
 with bwf (lv : list bstr) (b : cblk) : bool :=
   match b with BNil => true | BCons s r => swf lv s && bwf lv r end
